@@ -18,6 +18,7 @@
 import Statrs.Props.C14.Ranks
 import Statrs.Lemmas.RankSort
 import Statrs.Real.Simp
+import Statrs.Inst.Float
 set_option linter.unusedSectionVars false
 set_option linter.unusedVariables false
 namespace Statrs.Props.C14.RanksModel
@@ -272,8 +273,9 @@ theorem countP_split (v : List ℝ) (P : ℝ → Bool) (p : ℕ) (hp : p ≤ v.l
     simp
   rw [e1, e2, List.length_take]; omega
 
-theorem abs_le_zero_lit (x : ℝ) : (RFun.abs x ≤ (0.0 : ℝ)) ↔ x = 0 := by
-  rw [rfun_abs]; norm_num
+/-- over ℝ the tie test `*elt == prev_elt` is equality -/
+theorem beq_tie_real (x y : ℝ) : ((x == y) = true) ↔ x = y := by
+  rw [real_beq]
 
 section steps
 variable (s : List (Int × ℝ)) (tb : RankTieBreaker)
@@ -281,14 +283,14 @@ variable (s : List (Int × ℝ)) (tb : RankTieBreaker)
 theorem step_zero (R : List ℝ) (prev pidx : Int) (pelt : ℝ) (idx : Int) (elt : ℝ) :
     Data.ranks.step (α := ℝ) s tb (R, (prev, (pidx, pelt))) ((0 : Int), (idx, elt))
       = (R, (prev, (idx, elt))) := by
-  have h : RFun.abs (elt - elt) ≤ (0.0 : ℝ) := (abs_le_zero_lit _).2 (sub_self _)
+  have h : ((elt == elt) = true) := (beq_tie_real _ _).2 rfl
   simp only [Data.ranks.step, if_true, h]
 
 theorem step_eq (R : List ℝ) (prev pidx : Int) (pelt : ℝ) (i idx : Int) (elt : ℝ) (hi : i ≠ 0)
     (he : elt = pelt) :
     Data.ranks.step (α := ℝ) s tb (R, (prev, (pidx, pelt))) (i, (idx, elt))
       = (R, (prev, (pidx, pelt))) := by
-  have h : RFun.abs (elt - pelt) ≤ (0.0 : ℝ) := (abs_le_zero_lit _).2 (by rw [he]; exact sub_self _)
+  have h : ((elt == pelt) = true) := (beq_tie_real _ _).2 he
   simp only [Data.ranks.step, if_neg hi, h, if_true]
 
 theorem step_ne (R : List ℝ) (prev pidx : Int) (pelt : ℝ) (i idx : Int) (elt : ℝ) (hi : i ≠ 0)
@@ -296,8 +298,8 @@ theorem step_ne (R : List ℝ) (prev pidx : Int) (pelt : ℝ) (i idx : Int) (elt
     Data.ranks.step (α := ℝ) s tb (R, (prev, (pidx, pelt))) (i, (idx, elt))
       = ((if i = prev + (1 : Int) then listSet R pidx (RFun.ofInt i : ℝ)
           else (S.slice_statistics.handle_rank_ties (α := ℝ) R s prev i tb).2), (i, (idx, elt))) := by
-  have h : ¬ (RFun.abs (elt - pelt) ≤ (0.0 : ℝ)) := fun h' => he (sub_eq_zero.1 ((abs_le_zero_lit _).1 h'))
-  simp only [Data.ranks.step, if_neg hi, h, if_false]
+  have h : ¬ ((elt == pelt) = true) := fun h' => he ((beq_tie_real _ _).1 h')
+  simp only [Data.ranks.step, if_neg hi, if_neg h]
 
 end steps
 
@@ -635,32 +637,170 @@ theorem ranks_first_reverse_counterexample :
     subst h0 h1
     norm_num
 
-/-! ### a finding: tied infinities are not recognised as ties
+/-! ### ties on every carrier: equal values (also equal infinities) are tied
 
-  The tie test of `Data::ranks` is `(*elt - prev_elt).abs() <= 0.0`.  For `elt = prev_elt = ±∞`
-  the difference is NaN and the test is false, so equal infinite values are ranked like distinct
-  ones (`Min`/`Max`/`Average` of `[∞, ∞]` give `[1, 2]`, not `[1, 1]`/`[2, 2]`/`[1.5, 1.5]`).
-  Stated for every carrier: whenever a value is comparable with itself but fails the tie test,
-  two copies of it receive the ranks 1 and 2.  (IEEE `Float` with `x = ∞` satisfies both
-  hypotheses; the correspondence suite reproduces `[1, 2]` on the implementation.  Over ℝ the
-  second hypothesis is never satisfiable, which is why the theorems above hold for all real
-  inputs.) -/
-section finding
+  The tie test of `Data::ranks` is plain equality `*elt == prev_elt` (it used to be
+  `(*elt - prev_elt).abs() <= 0.0`, which is false for `elt = prev_elt = ±∞` because `∞ - ∞` is
+  NaN, so two equal infinities were ranked `[1, 2]`).  Stated for every carrier: whenever a value
+  is comparable with itself (`x ≤ x`: the sort does not panic) and equal to itself
+  (`(x == x) = true`), all copies of it are tied — `n` copies of `x` all receive the
+  tie-breaker's rank of the block `[0, n)`: `1` (`Min`), `n` (`Max`), `n/2 + 0/2 + 0.5`
+  (`Average`).  IEEE `Float` satisfies both hypotheses for every non-NaN `x`, `±∞` included; over
+  ℝ they always hold (`ranks_tie_eq_of_eq` above is the statement for arbitrary real data). -/
+section ties
 variable {α : Type} [Add α] [Sub α] [Mul α] [Div α] [Neg α] [LT α] [LE α] [BEq α]
   [DecidableLT α] [DecidableLE α] [OfScientific α] [Inhabited α] [RFun α]
 
-theorem ranks_selftie_counterexample (x : α) (hxx : x ≤ x)
-    (htie : ¬ (RFun.abs (x - x) ≤ (0.0 : α))) :
-    Data.ranks (⟨[x, x]⟩ : Data α) RankTieBreaker.Min = [(RFun.ofInt 1 : α), (RFun.ofInt 2 : α)] := by
+/-- one loop iteration on a further copy of `x` (or on the first element, a copy of `x`) leaves
+    `ranks` and `prev` alone -/
+theorem step_run (s : List (Int × α)) (tb : RankTieBreaker) (x : α) (heq : (x == x) = true)
+    (st : List α × (Int × (Int × α))) (i idx : Int) (h : i = 0 ∨ st.2.2.2 = x) :
+    (Data.ranks.step s tb st (i, (idx, x))).1 = st.1 ∧
+    (Data.ranks.step s tb st (i, (idx, x))).2.1 = st.2.1 ∧
+    (Data.ranks.step s tb st (i, (idx, x))).2.2.2 = x := by
+  by_cases hi : i = 0
+  · simp [Data.ranks.step, hi, heq]
+  · have hx := h.resolve_left hi
+    simp [Data.ranks.step, hi, hx, heq]
+
+theorem foldl_run (s : List (Int × α)) (tb : RankTieBreaker) (x : α) (heq : (x == x) = true)
+    (L : List (Int × (Int × α))) (hL : ∀ e ∈ L, e.2.2 = x)
+    (st : List α × (Int × (Int × α)))
+    (h : st.2.2.2 = x ∨ ∀ hne : L ≠ [], (L.head hne).1 = 0) :
+    (L.foldl (Data.ranks.step s tb) st).1 = st.1 ∧
+    (L.foldl (Data.ranks.step s tb) st).2.1 = st.2.1 := by
+  induction L generalizing st with
+  | nil => exact ⟨rfl, rfl⟩
+  | cons e t ih =>
+    obtain ⟨i, idx, y⟩ := e
+    have hy : y = x := hL (i, (idx, y)) (by simp)
+    subst hy
+    have h' : i = 0 ∨ st.2.2.2 = y := by
+      rcases h with h | h
+      · exact Or.inr h
+      · exact Or.inl (h (by simp))
+    obtain ⟨h1, h2, h3⟩ := step_run s tb y heq st i idx h'
+    rw [List.foldl_cons]
+    obtain ⟨g1, g2⟩ := ih (fun e he => hL e (by simp [he])) _ (Or.inl h3)
+    exact ⟨g1.trans h1, g2.trans h2⟩
+
+/-- writing one rank at every position of an enumeration fills the whole vector -/
+theorem writeAll_listEnum (l : List α) (rank z : α) :
+    writeAll (listEnum l) rank (List.replicate l.length z) = List.replicate l.length rank := by
+  apply List.ext_getElem
+  · rw [writeAll_length]; simp
+  · intro k h1 h2
+    rw [← listGet_nat_lt _ k h1, writeAll_get]
+    have hk : k < l.length := by simpa using h2
+    have hm : (k : Int) ∈ (listEnum l).map Prod.fst := by
+      rw [listEnum_map_fst]
+      exact List.mem_map.2 ⟨k, List.mem_range.2 hk, rfl⟩
+    rw [if_pos ⟨hm, by omega, by simp; exact hk⟩]
+    simp
+
+/-- ALL copies of a self-equal value are tied (`Min`/`Max`/`Average`), on every carrier:
+    `n` copies of `x` all receive the tie-breaker's rank of the block `[0, n)` -/
+theorem ranks_selftie (x : α) (hxx : x ≤ x) (heq : (x == x) = true) (n : ℕ)
+    (tb : RankTieBreaker) (htb : tb ≠ RankTieBreaker.First) :
+    Data.ranks (⟨List.replicate n x⟩ : Data α) tb
+      = List.replicate n (tieRank (0 : Int) (n : Int) tb) := by
+  have hp : sortPanics (List.replicate n x) = false := by
+    unfold sortPanics
+    have : ((List.replicate n x).any fun a => (partialCmp a a).isNone) = false := by
+      rw [List.any_eq_false]; intro a ha
+      rw [List.eq_of_mem_replicate ha]; simp [partialCmp, hxx]
+    rw [this]; simp
+  have hs : Data.ranks.enumerated (⟨List.replicate n x⟩ : Data α) = listEnum (List.replicate n x) := by
+    unfold Data.ranks.enumerated
+    apply sortBy_of_pairwise
+    rw [List.pairwise_iff_getElem]
+    intro i j hi hj _
+    rw [listEnum_length] at hi hj
+    rw [listEnum_getElem _ i hi, listEnum_getElem _ j hj]
+    simp [hxx]
+  have hlen : (listEnum (List.replicate n x)).length = n := by rw [listEnum_length]; simp
+  have hfold := foldl_run (listEnum (List.replicate n x)) tb x heq
+    (listEnum (listEnum (List.replicate n x)))
+    (by
+      intro e he
+      obtain ⟨k, hk, rfl⟩ := (mem_listEnum _ e).1 he
+      rw [listEnum_length] at hk
+      rw [listEnum_getElem _ k hk]; simp)
+    (List.replicate (List.replicate n x).length (0.0 : α), ((0 : Int), ((0 : Int), (0.0 : α))))
+    (Or.inr (by
+      intro hne
+      have h0 : 0 < (listEnum (listEnum (List.replicate n x))).length :=
+        List.length_pos_iff.2 hne
+      rw [List.head_eq_getElem]
+      have h0' : 0 < (listEnum (List.replicate n x)).length := by
+        rwa [listEnum_length] at h0
+      rw [listEnum_getElem _ 0 h0']; rfl))
+  obtain ⟨g1, g2⟩ := hfold
+  have hmain : ∀ tb' : RankTieBreaker, tb' = tb →
+      (S.slice_statistics.handle_rank_ties (α := α)
+        ((listEnum (listEnum (List.replicate n x))).foldl
+          (Data.ranks.step (listEnum (List.replicate n x)) tb)
+          (List.replicate (List.replicate n x).length (0.0 : α), ((0 : Int), ((0 : Int), (0.0 : α))))).1
+        (listEnum (List.replicate n x))
+        ((listEnum (listEnum (List.replicate n x))).foldl
+          (Data.ranks.step (listEnum (List.replicate n x)) tb)
+          (List.replicate (List.replicate n x).length (0.0 : α), ((0 : Int), ((0 : Int), (0.0 : α))))).2.1
+        (listLen (List.replicate n x)) tb).2
+      = List.replicate n (tieRank (0 : Int) (n : Int) tb) := by
+    intro _ _
+    rw [g1, g2, handle_rank_ties_eq _ _ _ _ tb htb]
+    have hl : listLen (List.replicate n x) = (n : Int) := by simp [listLen]
+    rw [hl]
+    have ht : (List.drop (Int.toNat (0 : Int)) (listEnum (List.replicate n x))).take
+        (Int.toNat ((n : Int) - 0)) = listEnum (List.replicate n x) := by
+      simp only [Int.toNat_zero, List.drop_zero, sub_zero, Int.toNat_natCast]
+      rw [List.take_of_length_le (by rw [hlen])]
+    rw [ht]
+    have := writeAll_listEnum (List.replicate n x) (tieRank (0 : Int) (n : Int) tb) (0.0 : α)
+    simpa using this
+  cases tb with
+  | First => exact absurd rfl htb
+  | Average => unfold Data.ranks; simp only [hp, hs]; exact hmain _ rfl
+  | Min => unfold Data.ranks; simp only [hp, hs]; exact hmain _ rfl
+  | Max => unfold Data.ranks; simp only [hp, hs]; exact hmain _ rfl
+
+/-- two copies of a self-equal value are tied under `Min`, `Max` and `Average` -/
+theorem ranks_selftie_pair (x : α) (hxx : x ≤ x) (heq : (x == x) = true) :
+    Data.ranks (⟨[x, x]⟩ : Data α) RankTieBreaker.Min = [(RFun.ofInt 1 : α), (RFun.ofInt 1 : α)] ∧
+    Data.ranks (⟨[x, x]⟩ : Data α) RankTieBreaker.Max = [(RFun.ofInt 2 : α), (RFun.ofInt 2 : α)] ∧
+    Data.ranks (⟨[x, x]⟩ : Data α) RankTieBreaker.Average
+      = [(((RFun.ofInt 2 : α) / (2.0 : α)) + ((RFun.ofInt 0 : α) / (2.0 : α))) + (0.5 : α),
+         (((RFun.ofInt 2 : α) / (2.0 : α)) + ((RFun.ofInt 0 : α) / (2.0 : α))) + (0.5 : α)] := by
   have hp : sortPanics [x, x] = false := by
     simp [sortPanics, partialCmp, hxx]
   have hs : Data.ranks.enumerated (⟨[x, x]⟩ : Data α) = [((0 : Int), x), ((1 : Int), x)] := by
     simp [Data.ranks.enumerated, listEnum, List.range_succ, sortBy, insertBy, hxx]
-  unfold Data.ranks
-  simp only [hp, hs]
-  simp [listEnum, List.range_succ, Data.ranks.step, htie, listSet, listLen,
-    S.slice_statistics.handle_rank_ties, S.slice_statistics.handle_rank_ties.loop3]
+  refine ⟨?_, ?_, ?_⟩
+  · unfold Data.ranks
+    simp only [hp, hs]
+    simp [listEnum, List.range_succ, Data.ranks.step, heq, listSet, listLen,
+      S.slice_statistics.handle_rank_ties, S.slice_statistics.handle_rank_ties.loop3]
+  · unfold Data.ranks
+    simp only [hp, hs]
+    simp [listEnum, List.range_succ, Data.ranks.step, heq, listSet, listLen,
+      S.slice_statistics.handle_rank_ties, S.slice_statistics.handle_rank_ties.loop5]
+  · unfold Data.ranks
+    simp only [hp, hs]
+    simp [listEnum, List.range_succ, Data.ranks.step, heq, listSet, listLen,
+      S.slice_statistics.handle_rank_ties, S.slice_statistics.handle_rank_ties.loop1]
 
-end finding
+end ties
+
+/-- non-vacuity: over IEEE `Float` the hypotheses hold for `x = ∞` (the value the old difference
+    test `(∞ - ∞).abs() <= 0.0` failed on), so equal infinities are tied… -/
+example (n : ℕ) : Data.ranks (⟨List.replicate n (RFun.inf : Float)⟩ : Data Float) RankTieBreaker.Min
+    = List.replicate n (RFun.ofInt 1 : Float) :=
+  ranks_selftie (RFun.inf : Float) (by decide) (by decide) n RankTieBreaker.Min (by decide)
+
+example : ¬ (RFun.abs ((RFun.inf : Float) - RFun.inf) ≤ (0.0 : Float)) := by decide
+
+/-- …and over ℝ for every `x` -/
+example (x : ℝ) : Data.ranks (⟨[x, x]⟩ : Data ℝ) RankTieBreaker.Max = [(RFun.ofInt 2 : ℝ), RFun.ofInt 2] :=
+  (ranks_selftie_pair x (le_refl x) (by simp)).2.1
 
 end Statrs.Props.C14.RanksModel
